@@ -1,5 +1,5 @@
 """C12 - argument encoding and decoding are inverse for every instruction signature."""
-import json
+import json, os
 from .. import core, sig as SIG, argcodec as AC
 from ..models import eval as E
 
@@ -90,6 +90,7 @@ def run_shard(ctx):
     r = ctx.rng
     n = SIZES[ctx.tier] // ctx.nshards + 1
     for i in range(n):
+        if r.chance(0.06): intrinsic_padding_case(ctx, r); continue
         params = gen_sig(r)
         sigtext = SIG.sig_text(params)
         args, exps = [], []
@@ -159,6 +160,43 @@ def run_shard(ctx):
         ctx.count('reencoded_equal')
         if len(nonpad) >= 2: ctx.fp(sigtext, tuple(a[0] for a in args))
         ctx.sample({'sig': sigtext, 'args': [AC.render_arg(a) for a in args], 'blob': ins.blob.hex(), 'mask': ins.mask, 'decompiled': [list(x) for x in da]}, cap=3)
+
+def intrinsic_padding_case(ctx, r):
+    """Signatures of *intrinsic* instructions with padding in any position: the statement written with operators must decode back to
+    the same statement (and re-encode to the same bytes); the arguments of an intrinsic go through their own index bookkeeping."""
+    tool, game, magic, regs = r.pick([('anm', 'th12', '!anmmap', ('$REG[10000]', '$REG[10001]', '%REG[10004]', '%REG[10005]')),
+                                      ('ecl', 'th08', '!eclmap', ('$REG[10000]', '$REG[10001]', '%REG[10016]', '%REG[10017]'))])
+    def pad(sig):
+        k = r.randint(0, len(sig)); return sig[:k] + r.pick(['_', '_', '__', '----']) + sig[k:] if r.chance(0.8) else sig
+    sigs = {900: pad('SS'), 901: pad('SSS'), 902: pad('ff'), 903: pad('fff'), 904: pad('SS')}
+    intr = {900: 'AssignOp(op="="; type="int")', 901: 'BinOp(op="+"; type="int")', 902: 'AssignOp(op="="; type="float")', 903: 'BinOp(op="*"; type="float")', 904: 'UnOp(op="-"; type="int")'}
+    mapfile = magic + '\n!ins_signatures\n' + ''.join('%d %s\n' % kv for kv in sigs.items()) + '!ins_intrinsics\n' + ''.join('%d %s\n' % kv for kv in intr.items())
+    a, b, f, g = regs
+    stmts = ['%s = %d;' % (a, r.randint(1, 99)), '%s = %s + %d;' % (b, a, r.randint(1, 9)), '%s = %d.5;' % (f, r.randint(0, 9)), '%s = %s * %s;' % (g, f, f), '%s = -%s;' % (a, b), '%s = %s + %s;' % (a, b, a)]
+    r.shuffle(stmts)
+    body = '\n'.join(stmts)
+    text = ('entry { path: "a.png", has_data: false, img_width: 64, img_height: 64, img_format: 3, sprites: {} }\nscript s0 {\n%s\n}\n' % body) if tool == 'anm' else ('void sub0() {\n%s\n}\nscript timeline0 {}\n' % body)
+    mp = ctx.write('c12i.map', mapfile); src = ctx.write('c12i.txt', text); out = os.path.join(ctx.dir, 'c12i.bin'); dec = os.path.join(ctx.dir, 'c12i.dec'); out2 = os.path.join(ctx.dir, 'c12i.re')
+    for q in (out, dec, out2):
+        if os.path.exists(q): os.unlink(q)
+    ctx.evaluations += 1
+    replay = {'text': text, 'mapfile': mapfile, 'tool': tool, 'game': game}
+    c = ctx.cli({'tool': tool, 'cmd': 'compile', 'game': game, 'in': src, 'out': out, 'maps': [mp], 'no_builtin': True})
+    if 'panic' in c or 'abort' in c: ctx.inconcl('compile crash (C04)'); return
+    if not c.get('ok'):
+        ctx.violation('abi:intrinsic-with-padding:rejects-valid', core.norm_msg(core.headline(c.get('diag', '')))[:200], replay); return
+    d = ctx.cli({'tool': tool, 'cmd': 'decompile', 'game': game, 'in': out, 'out': dec, 'maps': [mp], 'no_builtin': True})
+    if 'panic' in d or 'abort' in d: ctx.inconcl('decompile crash (C16)'); return
+    if not d.get('ok'): ctx.violation('abi:intrinsic-with-padding:unreadable', core.norm_msg(core.headline(d.get('diag', '')))[:200], replay); return
+    got = (ctx.read(dec) or b'').decode('utf-8', 'replace')
+    norm = lambda t: ''.join(t.split())
+    missing = [st for st in stmts if norm(st) not in norm(got)]
+    if missing and not core.warnings_of(d.get('diag', '')):
+        ctx.violation('abi:intrinsic-with-padding:decoded-differs', 'wrote `%s`; the decompiled script does not contain it: %s' % (missing[0], got[-400:]), dict(replay, decompiled=got[-1500:])); return
+    c2 = ctx.cli({'tool': tool, 'cmd': 'compile', 'game': game, 'in': dec, 'out': out2, 'maps': [mp], 'no_builtin': True, **({'images': [out]} if tool == 'anm' else {})})
+    if not c2.get('ok') or ctx.read(out2) != ctx.read(out):
+        ctx.violation('abi:intrinsic-with-padding:reencode-differs', 'recompiling the decompiled script gives different bytes / fails: %s' % core.norm_msg(core.headline(c2.get('diag', '')))[:120], dict(replay, decompiled=got[-1500:])); return
+    ctx.count('intrinsic_padding_cases'); ctx.fp('intr-pad', tuple(sorted(sigs.items())))
 
 def which_param(params, offset):
     pos = 0
